@@ -3,10 +3,10 @@
    re-checked against it.  Nothing else lives here. *)
 From Coq Require Import Lia.
 From RV.Model Require Import Base Word Limbs Bytes DivRecip DivSmall Redc.
-From RV.Model Require DivRef.
+From RV.Model Require DivRef DivKnuth.
 From RV.Gen Require Import Prim Scalar.
 From RV.Model Require Add Mul UDiv Conv Bits.
-From RV.Proofs Require Import BaseFacts PfGenScalar PfGenAdd PfGenMul PfGenDiv PfGenSpecial PfGenCtor PfGenBits PfGenDivRef PfGenLimbs PfGenRedc.
+From RV.Proofs Require Import BaseFacts PfGenScalar PfGenAdd PfGenMul PfGenDiv PfGenSpecial PfGenCtor PfGenBits PfGenDivRef PfGenLimbs PfGenRedc PfGenKnuth.
 
 Theorem GenTie_source_equals_model :
   (forall bits, 0 <= bits -> bits + 63 < B -> g_nlimbs bits = Val (nlimbs bits)) /\
@@ -291,6 +291,15 @@ Theorem GenTie_square_redc : forall N a md inv,
 Proof. exact g_square_redc_eq. Qed.
 Print Assumptions GenTie_square_redc.
 
+(* Knuth division, normalised variant (algorithms/div/knuth.rs div_nxm_normalized): downward loop
+   `for j in (0..=m).rev()`, `continue`, windows `&mut numerator[j..j + n]` handed to the translated
+   submul_nx1 / adc_n and written back (Prim.subslice / Prim.splice), element stores *)
+Theorem GenTie_div_nxm_normalized : forall numerator divisor,
+  Forall inW numerator -> Forall inW divisor -> lenZ numerator < B ->
+  g_div_nxm_normalized numerator divisor = DivKnuth.div_nxm_normalized numerator divisor.
+Proof. exact g_div_nxm_normalized_eq. Qed.
+Print Assumptions GenTie_div_nxm_normalized.
+
 (* the premises are satisfiable and the generated code computes: reciprocal(2^63) = 2^64 - 1 *)
 Example GenTie_nonvacuous :
   g_reciprocal_mg10 (2 ^ 63) = Val (2 ^ 64 - 1) /\ g_mask 65 = Val 1 /\ g_nlimbs 65 = Val 2 /\
@@ -304,5 +313,11 @@ Example GenTie_nonvacuous :
   g_div_nx1 [5; 7] 3 = Val (0, [6148914691236517207; 2]) /\
   g_div_nx2 [5; 7; 1] (2 ^ 64 + 1) = Val (2 ^ 64, [5; 1; 0]) /\
   g_mul_redc 1 [3] [5] [15] 0x1111111111111111 = Val [0] /\
-  g_square_redc 2 [5; 0] [9; 1] 0x71c71c71c71c71c7 = Val [14119730031728298775; 0].
-Proof. vm_compute. repeat split. Qed.
+  g_square_redc 2 [5; 0] [9; 1] 0x71c71c71c71c71c7 = Val [14119730031728298775; 0] /\
+  g_div_nxm_normalized [0x1656178c14142000; 0x821415dfe9e81612; 0x1616561616161616; 0x96000016820016]
+                       [0x1415dfe9e8161414; 0x1656161616161682; 0x9600001682001616]
+  = DivKnuth.div_nxm_normalized [0x1656178c14142000; 0x821415dfe9e81612; 0x1616561616161616; 0x96000016820016]
+                       [0x1415dfe9e8161414; 0x1656161616161682; 0x9600001682001616] /\
+  (exists r, g_div_nxm_normalized [0x1656178c14142000; 0x821415dfe9e81612; 0x1616561616161616; 0x96000016820016]
+                       [0x1415dfe9e8161414; 0x1656161616161682; 0x9600001682001616] = Val r).
+Proof. vm_compute. repeat split. eexists. reflexivity. Qed.
